@@ -52,7 +52,9 @@ type scenario struct {
 	RefAPISrc   int      `json:"refapi_src"`
 	RefAPITgt   int      `json:"refapi_tgt"`
 	ExtUp       int      `json:"extup,omitempty"`
-	Cancel202   int      `json:"cancel202,omitempty"` // registries answer 202 (not 204) to the DELETE of an upload session, which is what regclient takes for success
+	MountDeclK  []int    `json:"mount_decline_k,omitempty"` // the registry declines the k-th cross-repository mount request it sees (202 + upload session), grants the others
+	MountDeclN  []string `json:"mount_decline_n,omitempty"` // ... declines the mount of these blobs
+	Cancel202   int      `json:"cancel202,omitempty"`       // registries answer 202 (not 204) to the DELETE of an upload session, which is what regclient takes for success
 	Opts        copyOpts `json:"opts"`
 	ByDigest    int      `json:"bydigest,omitempty"`
 	TgtByDigest int      `json:"tgtbydigest,omitempty"`
